@@ -513,6 +513,39 @@ class Intrinsics:
             raise Unsupported(f'symbolic float comparison {opname}')
         return simp(r)
 
+    _NEG_CHECKED = []
+
+    @staticmethod
+    def _neg_facts(b, nb):
+        # consequences of nb == b with bit 63 flipped (proved once by _check_neg_facts)
+        return [nb >= 0, nb < (1 << 64), nb / (1 << 63) == 1 - b / (1 << 63),
+                (nb / (1 << 52)) % 2048 == (b / (1 << 52)) % 2048, nb % (1 << 52) == b % (1 << 52)]
+
+    def _check_neg_facts(self):
+        if self._NEG_CHECKED:
+            return
+        b, nb = z3.Int('b'), z3.Int('nb')
+        s = z3.Solver()
+        s.set('timeout', 60000)
+        s.add(b >= 0, b < (1 << 64), nb == b + (1 - 2 * (b / (1 << 63))) * (1 << 63))
+        s.add(z3.Not(z3.And(self._neg_facts(b, nb))))
+        if s.check() != z3.unsat:
+            raise InterpError('float negation lemma not proved')
+        self._NEG_CHECKED.append(True)
+
+    def float_neg(self, P, v):
+        """-v for a symbolic float: the sign bit flips (also for NaN and zero); a fresh pattern with its defining facts"""
+        self._check_neg_facts()
+        b = v.bits
+        cache = P.__dict__.setdefault('_float_negs', {})
+        key = b.get_id() if is_z3(b) else b
+        if key in cache:
+            return cache[key][0]
+        nb = z3.Int(P.fresh_name('negbits'))
+        cache[key] = (SymFloat(nb), b)
+        P.assume(z3.And([nb == b + (1 - 2 * (b / (1 << 63))) * (1 << 63)] + self._neg_facts(b, nb)), fact=True)
+        return cache[key][0]
+
     def float_mul_unit(self, P, v, unit):
         """v * (+1.0 | -1.0) for a symbolic float v: exact; a NaN operand gives a NaN with unspecified sign/payload"""
         if unit not in (1.0, -1.0):
@@ -525,7 +558,7 @@ class Intrinsics:
             return SymFloat(b)
         if unit == 1.0:
             return v
-        return SymFloat(simp(v.bits + (1 - 2 * (v.bits / (1 << 63))) * (1 << 63)))
+        return self.float_neg(P, v)
 
     def x_math_ldexp(self, P, a, b):
         if not is_z3(a) and not is_z3(b):
